@@ -54,6 +54,46 @@ class Report:
         self.notes[k] = v
 
 
+class SubReport:
+    """view of a Report that lets one property's check reuse another property's rule module: rule ids `<src>.x` are
+    renamed `<dst>.x`, optionally only the rule families matching `only` are kept (the others are evaluated but dropped)"""
+
+    def __init__(self, rep, src, dst, only=None):
+        self.rep, self.src, self.dst = rep, src, dst
+        self.only = re.compile(only) if only else None
+        self.notes = {}
+        self.obs = rep.obs
+
+    def _map(self, rule):
+        if self.only is not None and not self.only.search(rule):
+            return None
+        return self.dst + rule[len(self.src):] if rule.startswith(self.src) else self.dst + "." + rule
+
+    def ok(self, rule, key, loc="", detail=""):
+        r = self._map(rule)
+        if r:
+            self.rep.ok(r, key, loc, detail)
+
+    def bad(self, rule, key, loc="", detail=""):
+        r = self._map(rule)
+        if r:
+            self.rep.bad(r, key, loc, detail)
+
+    def check(self, rule, key, cond, loc="", detail="", fail_detail=None):
+        r = self._map(rule)
+        if r:
+            self.rep.check(r, key, cond, loc, detail, fail_detail)
+        return bool(cond)
+
+    def floor(self, rule, what, count, floor):
+        r = self._map(rule)
+        if r:
+            self.rep.floor(r, what, count, floor)
+
+    def note(self, k, v):
+        pass
+
+
 # --------------------------------------------------------------------------
 # type-string helpers
 # --------------------------------------------------------------------------
